@@ -58,11 +58,15 @@ inline void op_view(vh::Rng & rng, const model::Node & m)
         if (!r.ok) continue;
         typename F::output_t a = v.at(c), b = cpy.at(c);
         vh::ev();
-        for (std::size_t j = 0; j < zoo::traits<F>::M; ++j)
-            if (!((model::Q)a[j] == r.v[j]) || !((model::Q)b[j] == r.v[j])) {
-                vh::viol("api:view", std::string(Z::type_string()) + " c=" + zoo::show_q(mc));
-                return;
-            }
+        model::Vec ga(zoo::traits<F>::M), gb(zoo::traits<F>::M);
+        for (std::size_t j = 0; j < zoo::traits<F>::M; ++j) {
+            ga[j] = (model::Q)a[j];
+            gb[j] = (model::Q)b[j];
+        }
+        if (!r.admits(ga) || !r.admits(gb)) {
+            vh::viol("api:view", std::string(Z::type_string()) + " c=" + zoo::show_q(mc));
+            return;
+        }
     }
     vh::stat("members_run:view");
 }
@@ -203,12 +207,14 @@ inline void drive_c15()
             ++hits;
             vh::set_case("%s program c=%s", Z::name(), zoo::show_q(mc).c_str());
             typename F::output_t out = v.at(c);
+            model::Vec gv(zoo::traits<F>::M);
             for (std::size_t j = 0; j < zoo::traits<F>::M; ++j) {
                 auto x = out[j];
                 dig = vh::mix(dig, x);
                 vh::ev();
-                if (!((model::Q)x == r.v[j])) vh::viol("program:wrong-value", std::string(Z::type_string()) + " c=" + zoo::show_q(mc));
+                gv[j] = (model::Q)x;
             }
+            if (!r.admits(gv)) vh::viol("program:wrong-value", std::string(Z::type_string()) + " c=" + zoo::show_q(mc));
         }
         return hits;
     };
